@@ -307,10 +307,8 @@ class DocumentationAggregator(CMakeListener):
 
             # If the value includes the quote marks,
             # need to remove them to get just the raw string
-            if value[0] == '"':
-                value = value[1:]
-            if value[-1] == '"':
-                value = value[:-1]
+            if len(value) >= 2 and value[0] == '"' and value[-1] == '"':
+                value = value[1:-1]
             self.documented.append(VariableDocumentation(
                 varname, docstring, VarType.STRING, value))
         else:  # Unset
